@@ -156,6 +156,8 @@ Definition str : IT (list Z) :=
 (* small list / array utilities *)
 
 Definition zlen {A} (l : list A) : Z := Z.of_nat (length l).
+(* list reversal in linear time (List.rev is quadratic); frev l = rev l is Proofs/ITLemmas.frev_eq *)
+Definition frev {A} (l : list A) : list A := rev_append l [].
 (* l[i]; recursion on the list, so an index of 2^32-1 costs nothing *)
 Fixpoint nthz_aux {A} (l : list A) (i : Z) {struct l} : option A :=
   match l with [] => None | x :: t => if i =? 0 then Some x else nthz_aux t (i - 1) end.
